@@ -239,16 +239,24 @@ def build_model(comp, spec):
 
 # ------------------------------------------------------------------ Go harness
 
-def go_prepare():
+def go_prepare(workdir):
+    """a go.mod/go.sum pair outside the harness tree whose `replace` points at the tree under test"""
+    mod = open(os.path.join(HARNESS, "go.mod")).read().replace("=> /repo", "=> " + REPO)
+    modfile = os.path.join(workdir, "go.mod")
+    open(modfile, "w").write(mod)
     src = os.path.join(REPO, "go.sum")
-    dst = os.path.join(HARNESS, "go.sum")
     if os.path.exists(src):
-        shutil.copy(src, dst)
+        shutil.copy(src, os.path.join(workdir, "go.sum"))
+    return modfile
+
+
+def repo_tag():
+    return "" if REPO == "/repo" else "_" + hashlib.sha256(REPO.encode()).hexdigest()[:8]
 
 
 def build_go(comp, spec, workdir):
     """build harness/cmd/<comp> against /repo's working tree with the component's overlay"""
-    go_prepare()
+    modfile = go_prepare(workdir)
     os.makedirs(os.path.join(BUILD, "go"), exist_ok=True)
     overlay = {}
     for rel, src in spec.get("accessors", {}).items():
@@ -259,7 +267,7 @@ def build_go(comp, spec, workdir):
         idir = os.path.join(workdir, "instr_" + comp)
         os.makedirs(idir, exist_ok=True)
         tool = os.path.join(BUILD, "go", "xv_instr")
-        rc, out = sh(["go", "build", "-o", tool, "./instr"], cwd=HARNESS, env=GOENV, timeout=600)
+        rc, out = sh(["go", "build", "-modfile", modfile, "-o", tool, "./instr"], cwd=HARNESS, env=GOENV, timeout=600)
         if rc != 0:
             return None, "instrumenter does not build:\n" + out[-3000:]
         for rel in instr["files"]:
@@ -271,8 +279,8 @@ def build_go(comp, spec, workdir):
             overlay[os.path.join(REPO, rel)] = dst
     ovp = os.path.join(workdir, "overlay_%s.json" % comp)
     json.dump({"Replace": overlay}, open(ovp, "w"))
-    binp = os.path.join(BUILD, "go", "xv_" + comp)
-    cmd = ["go", "build", "-tags", "verif", "-overlay", ovp, "-o", binp]
+    binp = os.path.join(BUILD, "go", "xv_" + comp + repo_tag())
+    cmd = ["go", "build", "-modfile", modfile, "-tags", "verif", "-overlay", ovp, "-o", binp]
     if spec.get("race"):
         cmd.insert(2, "-race")
     env = dict(GOENV)
